@@ -305,12 +305,13 @@ private theorem mem_ite_singleton (c : Prop) [Decidable c] (x n : String) :
     n ∈ (if c then [x] else []) ↔ (n = x ∧ c) := by
   by_cases h : c <;> simp [h]
 
-/-- **A table is loaded iff its chip is configured and was used**, and the range table always;
-nothing else enters. -/
+/-- **A table is loaded iff its chip is configured and was used** — the range table always and
+the Base64 table whenever configured (its deactivated lookup needs the default entry); nothing
+else enters: in particular no witness or instance value. -/
 theorem stdlib_tables_spec (arch used : Chips) (n : String) :
     n ∈ stdlibTables arch used ↔
       n = "p2r" ∨ (n = "sha256" ∧ arch.sha256 ∧ used.sha256) ∨ (n = "sha512" ∧ arch.sha512 ∧ used.sha512)
-      ∨ (n = "base64" ∧ arch.base64 ∧ used.base64) ∨ (n = "automaton" ∧ arch.automaton ∧ used.automaton)
+      ∨ (n = "base64" ∧ arch.base64) ∨ (n = "automaton" ∧ arch.automaton ∧ used.automaton)
       ∨ (n = "keccak_sha3" ∧ arch.keccakSha3 ∧ used.keccakSha3) ∨ (n = "blake2b" ∧ arch.blake2b ∧ used.blake2b) := by
   simp only [stdlibTables, List.mem_append, List.mem_singleton, mem_ite_singleton, Bool.and_eq_true]
   grind
